@@ -901,8 +901,16 @@ def r2_online(ctx, repo):
         s0 = wst[0]
         facts = [(c, pol) for c, pol, o in res.facts(s0) if o != "raise"]
         good = s0.value == ("getattr", algo, "weights") and facts == [(("cmp", "IsNot", algo, NONE), True)]
-        ctx.check(True if good else None, "R2", C + ":current-weights", "the weights are refreshed from the configured algorithm before use",
-                  "weights refresh: %s under %s" % (res.fmt(s0.value), [(res.fmt(c), p) for c, p in facts]), loc_of(s0))
+        if s0.value == ("getattr", algo, "weights") and facts in ([(("cmp", "IsNot", algo, NONE), False)], [(("cmp", "Is", algo, NONE), True)]):
+            good = False
+        ctx.check(True if good else (False if good is False and facts and facts[0][1] in (False, True) and s0.value == ("getattr", algo, "weights")
+                                     and facts != [(("cmp", "IsNot", algo, NONE), True)] and len(facts) == 1
+                                     and facts[0][0][:1] == ("cmp",) and {facts[0][0][2], facts[0][0][3]} == {algo, NONE} else None),
+                  "R2", C + ":current-weights", "the weights are refreshed from the configured algorithm before use",
+                  "the weights are refreshed from the algorithm only when *no* algorithm is configured (%s): with an algorithm the learned "
+                  "weights never reach the forecast (uniform initial weights are used)" % [(res.fmt(c), p) for c, p in facts]
+                  if good is False else "weights refresh: %s under %s" % (res.fmt(s0.value), [(res.fmt(c), p) for c, p in facts]), loc_of(s0),
+                  witness={"history": "fit(y1); update(y2) (algorithm learns); predict() combines with the initial weights"})
     # --- update: learn from forecasts made before the members are updated
     res = analysed(ctx, Prov(repo, no_inline=("_fit_ensemble",)).run_method(cls, "update"))
     fn = repo.lookup_method(cls, "update")[1]
@@ -1170,6 +1178,12 @@ def composite_updates(ctx, repo):
         borrow(ctx, "C10", "r4", (), rule, cname + ".update:propagation", lambda r, cname=cname: r["construct"].startswith(cname + ".update"),
                "the propagation of an update to every inner estimator (guard, own merge, y / X / update_params forwarded, every part on every path)",
                roots=roots)
+        if cname == "OnlineEnsembleForecaster":
+            continue  # documents its own default (False); C10 reports it as information
+        borrow(ctx, "C10", "update_defaults", (), rule, cname + ".update:default-forwarded-flag",
+               lambda r, cname=cname: r["construct"].startswith(cname + ".update:default"),
+               "the default of the `update_params` flag the composite forwards (composite.update(y) must equal updating its parts with their default)",
+               roots=roots + (BASE, "sktime/forecasting/base/_sktime.py"))
 
 
 def r3_inherited(ctx, repo):
